@@ -7,6 +7,7 @@
 package math
 
 import (
+	crand "crypto/rand"
 	"crypto/rsa"
 	"math"
 	"math/big"
@@ -118,9 +119,10 @@ func SplitPQ(pq *big.Int) (p1, p2 *big.Int) {
 }
 
 func MakeGAB(g int32, g_a, dh_prime *big.Int) (b, g_b, g_ab *big.Int) {
-	rnd := rand.New(rand.NewSource(time.Now().UnixNano())) //nolint: gosec зачем
+	// b is the client's secret exponent: uniform below 2^2048, from the OS cryptographic source
 	rndmax := big.NewInt(0).SetBit(big.NewInt(0), 2048, 1)
-	b = big.NewInt(0).Rand(rnd, rndmax)
+	b, err := crand.Int(crand.Reader, rndmax)
+	dry.PanicIfErr(err)
 	g_b = big.NewInt(0).Exp(big.NewInt(int64(g)), b, dh_prime)
 	g_ab = big.NewInt(0).Exp(g_a, b, dh_prime)
 
